@@ -338,3 +338,65 @@ theorem parseInt_cons (c : UInt8) (rest : Bytes) (bits : Nat) : parseInt (c :: r
       else some (if c == 45 then -(n : Int) else (n : Int)) := rfl
 
 end GB.C04
+
+namespace GB.C04
+
+theorem validUTF8_append' : ∀ (a : Bytes), validUTF8 a = true → ∀ b, validUTF8 b = true → validUTF8 (a ++ b) = true := by
+  intro a
+  fun_induction validUTF8 a with
+  | case1 => intro _ b hb; simpa using hb
+  | case2 c rest h0 ih =>
+    intro ha b hb
+    rw [List.cons_append, validUTF8.eq_def]
+    simp only [h0, if_true]
+    exact ih ha b hb
+  | case3 c h0 h1 b1 r ih =>
+    intro ha b hb
+    rw [List.cons_append, List.cons_append, validUTF8.eq_def]
+    simp only [h0, h1, if_true, Bool.false_eq_true, if_false, Bool.and_eq_true] at ha ⊢
+    exact ⟨ha.1, ih ha.2 b hb⟩
+  | case4 c rest h0 h1 hne => intro ha; simp at ha
+  | case5 c h0 h1 h2 b1 b2 r ih =>
+    intro ha b hb
+    rw [List.cons_append, List.cons_append, List.cons_append, validUTF8.eq_def]
+    simp only [h0, h1, h2, if_true, Bool.false_eq_true, if_false, Bool.and_eq_true] at ha ⊢
+    exact ⟨ha.1, ih ha.2 b hb⟩
+  | case6 c rest h0 h1 h2 hne => intro ha; simp at ha
+  | case7 c h0 h1 h2 h3 b1 b2 b3 r ih =>
+    intro ha b hb
+    rw [List.cons_append, List.cons_append, List.cons_append, List.cons_append, validUTF8.eq_def]
+    simp only [h0, h1, h2, h3, if_true, Bool.false_eq_true, if_false, Bool.and_eq_true] at ha ⊢
+    exact ⟨ha.1, ih ha.2 b hb⟩
+  | case8 c rest h0 h1 h2 h3 hne => intro ha; simp at ha
+  | case9 c rest h0 h1 h2 h3 => intro ha; simp at ha
+
+theorem validUTF8_append (a b : Bytes) (ha : validUTF8 a = true) (hb : validUTF8 b = true) : validUTF8 (a ++ b) = true :=
+  validUTF8_append' a ha b hb
+
+/-- UTF-8 encoding of a code point (RFC 3629), as a byte list -/
+def utf8Encode (c : Nat) : Bytes :=
+  if c < 128 then [UInt8.ofNat c]
+  else if c < 2048 then [UInt8.ofNat (192 + c / 64), UInt8.ofNat (128 + c % 64)]
+  else if c < 65536 then [UInt8.ofNat (224 + c / 4096), UInt8.ofNat (128 + c / 64 % 64), UInt8.ofNat (128 + c % 64)]
+  else [UInt8.ofNat (240 + c / 262144), UInt8.ofNat (128 + c / 4096 % 64), UInt8.ofNat (128 + c / 64 % 64), UInt8.ofNat (128 + c % 64)]
+
+theorem validUTF8_encode (c : Nat) (h : c < 55296 ∨ (57344 ≤ c ∧ c < 1114112)) : validUTF8 (utf8Encode c) = true := by
+  unfold utf8Encode
+  split
+  · rename_i h1
+    simp only [validUTF8, UInt8.lt_iff_toNat_lt, UInt8.toNat_ofNat]
+    simp
+    omega
+  · split
+    · rename_i h1 h2
+      simp [validUTF8, isCont, UInt8.lt_iff_toNat_lt, UInt8.le_iff_toNat_le, UInt8.toNat_ofNat]
+      (repeat' split) <;> omega
+    · split
+      · rename_i h1 h2 h3
+        simp [validUTF8, isCont, UInt8.lt_iff_toNat_lt, UInt8.le_iff_toNat_le, UInt8.toNat_ofNat, ← UInt8.toNat_inj]
+        (repeat' split) <;> omega
+      · rename_i h1 h2 h3
+        simp [validUTF8, isCont, UInt8.lt_iff_toNat_lt, UInt8.le_iff_toNat_le, UInt8.toNat_ofNat, ← UInt8.toNat_inj]
+        (repeat' split) <;> omega
+
+end GB.C04
